@@ -78,6 +78,17 @@ class CallMixin:
             return self.call_ext(fv.name, args, kwargs, node)
         if isinstance(fv, BoundExt):
             return self.call_method(fv.recv, fv.name, args, kwargs, node)
+        if isinstance(fv, ext.NamedTupleClass):
+            vals = list(args)
+            for name in fv.fields[len(vals):]:
+                if name in kwargs:
+                    vals.append(kwargs[name])
+                else:
+                    self.note_unknown(node, f'namedtuple field {name} not supplied')
+                    vals.append(UnkV(name))
+            t = TupleV(vals)
+            t.names = list(fv.fields)
+            return t
         if isinstance(fv, (SymV, UnkV)):
             self.event('call-opaque', node, callee=fv, args=args, kwargs=kwargs)
             if isinstance(fv, UnkV):
@@ -146,6 +157,15 @@ class CallMixin:
             # method of an external base class (object.__init__, Exception.__init__ ...)
             self.event('super-ext-call', node, name=name, args=args)
             return ConstV(None)
+        elif isinstance(recv, ext.StructV):
+            if name == 'pack':
+                r = ext.e_struct_pack(self, [recv.fmt] + list(args), kwargs, node)
+                self.event('ext-call', node, callee='struct.pack', args=[recv.fmt] + list(args), kwargs=kwargs, result=r)
+                return r
+            if name == 'unpack':
+                r = ext.e_struct_unpack(self, [recv.fmt] + list(args), kwargs, node)
+                self.event('ext-call', node, callee='struct.unpack', args=[recv.fmt] + list(args), kwargs=kwargs, result=r)
+                return r
         elif isinstance(recv, TupleV):
             f = None
         if f is not None:
@@ -528,6 +548,16 @@ def b_getattr(it, args, kwargs, node):
     return it.get_attr(obj, name, node)
 
 
+def b_setattr(it, args, kwargs, node):
+    obj = it.resolve(args[0])
+    name = it.py_key(args[1])
+    if name is None:
+        it.note_unknown(node, 'setattr with non-constant name')
+        return ConstV(None)
+    it.set_attr(obj, name, args[2], node)
+    return ConstV(None)
+
+
 def b_enumerate(it, args, kwargs, node):
     v = it.resolve(args[0])
     start = Lin.const(0)
@@ -756,7 +786,7 @@ def b_id(it, args, kwargs, node):
 
 BUILTINS = {
     'len': b_len, 'int': b_int, 'str': b_str, 'bytes': b_bytes, 'format': b_format, 'range': b_range,
-    'sorted': b_sorted, 'isinstance': b_isinstance, 'hasattr': b_hasattr, 'getattr': b_getattr,
+    'sorted': b_sorted, 'isinstance': b_isinstance, 'hasattr': b_hasattr, 'getattr': b_getattr, 'setattr': b_setattr,
     'enumerate': b_enumerate, 'zip': b_zip, 'sum': b_sum, 'divmod': b_divmod, 'list': b_list, 'dict': b_dict,
     'tuple': b_tuple, 'print': b_print, 'open': b_open, 'vars': b_vars, 'min': b_minmax('min'),
     'max': b_minmax('max'), 'bool': b_bool, 'slice': b_slice, 'type': b_type, 'hex': b_hex, 'abs': b_abs,
